@@ -13,6 +13,9 @@ R-C20-3  (syntax) class layer: the first test of `has_parent` is `self.name == o
          that only the parents are searched (a class is assignable to its ancestors, not to unrelated classes).
 R-C20-4  (syntax) order-free representation: a union is a `HashSet` of members; forming a union is set union (commutative,
          idempotent); equality and hash of the name types are consistent (R-C12-3).
+R-C20-5  (syntax) the boolean accumulators in the functions that decide assignability (check::name, check::context::clss) are
+         monotone: a flag initialised `true` is only ever and-ed (all generic arguments must be accepted, not the last one), a flag
+         initialised `false` only or-ed.
 """
 import itertools
 from .common import walk, src, strip, AnchorError
@@ -37,6 +40,7 @@ def run(chk, facts):
     chk.rule("R-C20-2", "Name::is_superset_of: every member of other is accepted by some member of self")
     chk.rule("R-C20-3", "has_parent: self == other or Any first, then the parents")
     chk.rule("R-C20-4", "unions are hash sets; union is set union")
+    chk.rule("R-C20-5", "for-all / exists accumulators of the assignability functions are monotone (`&=` on true, `|=` on false)")
 
     # ---------------- R-C20-1 ----------------
     try:
@@ -153,5 +157,18 @@ def run(chk, facts):
         chk.ob("R-C20-4", "union=set-union", ok, "Name::union is the set union of the members" if ok else "Name::union is no longer the set union of both member sets", facts.loc_of(un[0]) if un else None)
     except AnchorError as e:
         chk.anchor_fail("R-C20-4", e)
+    accumulators(chk, facts, "R-C20-5")
     chk.assume("transitivity through the parent graph and generics, the tuple special case and associativity of union around None are not decided (ND)")
     chk.notes.append("C20: the relation extracted from the source is model-checked on a finite universe by evaluating the extracted formula (the code is not run).")
+
+
+def accumulators(chk, facts, rule):
+    from .common import accumulator_census
+    rows = accumulator_census(facts.syn, ("check::name", "check::context::clss"))
+    for r in rows:
+        kind = "for-all" if r["init"] else "exists"
+        key = f"accumulator:{r['fn']['qual']}.{r['name']}"
+        chk.ob(rule, key, r["monotone"], f"{r['fn']['qual']}: `{r['name']}` is a {kind} accumulator ({', '.join(op for op, _ in r['updates'])})" if r["monotone"] else
+               f"{r['fn']['qual']}: `{r['name']}` starts as {str(r['init']).lower()} but is overwritten in the loop ({r['updates']}): the result depends on the last element only, "
+               "so a type whose earlier generic argument / member is not accepted is accepted all the same", facts.loc_of(r["fn"]))
+    chk.floor(rule, len(rows), 2, "boolean accumulators in the assignability functions")
